@@ -30,7 +30,10 @@ class Family:
 
 
 def corpus_dir(fam, tier, sd):
-    key = "%s-%s-%s-s%d%s" % (vlib.repo_hash(), vlib.harness_hash(), tier, sd, ("-" + vlib.hashlib.sha256(os.environ["VERIF_ONLY"].encode()).hexdigest()[:8]) if os.environ.get("VERIF_ONLY") else "")
+    hh = vlib.hash_tree([os.path.join(vlib.HARNESS, fam.pkg.strip("./")), os.path.join(vlib.HARNESS, "go.mod"),
+                         os.path.join(vlib.SPEC, fam.trace_spec), os.path.join(vlib.SPEC, fam.trace_cfg),
+                         os.path.join(vlib.SPEC, "Tiling.tla")])
+    key = "%s-%s-%s-s%d%s" % (vlib.repo_hash(), hh, tier, sd, ("-" + vlib.hashlib.sha256(os.environ["VERIF_ONLY"].encode()).hexdigest()[:8]) if os.environ.get("VERIF_ONLY") else "")
     return os.path.join(vlib.WORK, "corpus", fam.name + "-" + key)
 
 
@@ -159,7 +162,9 @@ def model_check(fam, prop, tier, wd):
     cdir = os.path.join(vlib.WORK, "modelcache")
     os.makedirs(cdir, exist_ok=True)
     spechash = vlib.hash_tree([vlib.SPEC])
-    for cfg, expect in fam.model_cfg.get(prop, {}).get(tier, []):
+    for item in fam.model_cfg.get(prop, {}).get(tier, []):
+        cfg, expect = item[0], item[1]
+        spec = item[2] if len(item) > 2 else fam.model_spec
         if not os.path.exists(os.path.join(vlib.SPEC, cfg)):
             continue
         cpath = os.path.join(cdir, "%s-%s.json" % (cfg, spechash))
@@ -169,7 +174,7 @@ def model_check(fam, prop, tier, wd):
             runs.append(res)
             continue
         t0 = time.time()
-        rc, out, td = vlib.tlc(fam.model_spec, cfg, wd, workers=vlib.NCPU, timeout=3 * 3600, xmx="14g")
+        rc, out, td = vlib.tlc(spec, cfg, wd, workers=vlib.NCPU, timeout=3 * 3600, xmx="14g")
         states, trans = vlib.tlc_stats(out)
         res = {"cfg": cfg, "states": states, "transitions": trans, "wall_s": round(time.time() - t0, 1),
                "expected": expect, "cached": False}
